@@ -44,6 +44,10 @@ Second round (harness/c16gen.py):
 All oracles and the model correspondence run on all of them; json-eval, bare-id and selector additionally on a copy of
 the template data whose values are replaced by the tag 'subset:flat position' (replication factors keep their value):
 the comparison then tells WHICH node was selected even when neighbouring values are equal or missing.
+Third round (harness/c16hist.py): histories on ONE reused DataQuerent / BufrMessageQuerent / NodePathParser over groups of
+3-4 of the messages above (valid queries, queries failing at evaluation time, expressions rejected in every state of the
+parser machine with 0-4 buffered slice elements, the same expression on consecutive messages): every answer against a
+fresh object and against the model (`query`; the parser object of the history theorems: driver op `parser-history`).
 Templates the wiring pass does not understand (open findings of C09/C07: an associated field in force over
 203 / 206 / marker / 008023, resumed class-33 runs) are excluded by the structural signatures of C09.
 """
@@ -75,11 +79,22 @@ META = dict(
          'forms for [:], [k], [-k], [a:b]); an `@` selector restricts the result of the unselected query to exactly the '
          'subsets it designates; filter_for_entities under a child/attribute step returns the matches with the slice applied '
          'in document order for every slice of the path language (negative steps included); on a shared tree with equal '
-         'labels the compressed query equals the uncompressed one subset by subset. Of "query = evaluation over the nested '
-         'JSON" and "bare id = flat filter" only the first stages are proved (_partial: one step from the top level; trees '
-         'without composite nodes); the full statements are decided case by case: the correspondence run compares '
+         'labels the compressed query equals the uncompressed one subset by subset. "query = evaluation over the nested '
+         'JSON" is proved in full for one subset, for a whole uncompressed message and (after fix F16c, the model is the fixed '
+         'code) for a whole compressed message, the empty selection included (C16_query_eq_eval_compressed; the one selector '
+         'outside its hypothesis, @[k] beyond the last subset, fails on both sides: C16_query_compressed_subset_out_of_range); '
+         '"bare id = flat filter" in full for ordinary elements on wired trees. The querent is modelled as the long-lived '
+         'OBJECT it is (parser attributes, reset(), what a raising handler leaves behind): C15_parse_history_independent / '
+         'C16_query_history_independent prove by induction over an unbounded history of earlier queries (accepted, rejected '
+         'at any point, failing at evaluation time, any mix of messages) and for every state of the object that each answer '
+         'is a function of (message, expression) alone; a parser whose reset() forgets the slice buffer is shown NOT to be '
+         '(C15_reset_must_clear_slice_buffer). The correspondence run compares '
          'Spec.evalPath on the model\'s nested JSON with the model query and the model with the implementation on every '
-         'query, and the oracle compares the implementation with an evaluator over its own nested JSON, its flat lists '
+         'query, runs histories of 70 (quick) / 110 operations on ONE DataQuerent / BufrMessageQuerent / NodePathParser over groups '
+         'of 3-4 messages (the two storage forms of one template with different values and counts, other templates): valid '
+         'queries, queries failing at evaluation time, expressions rejected in every state of the parser machine with 0-4 slice '
+         'elements buffered, each answer against a fresh object and against the model, results handed out earlier re-read at the '
+         'end; and the oracle compares the implementation with an evaluator over its own nested JSON, its flat lists '
          'filtered by label, post-hoc subset selection, the compressed/uncompressed and compiled/plain decodings, on '
          'generated messages, the C09 shapes and the sample files x all existing paths up to depth 6 x slices x selectors. '
          'Slices are drawn from the grid relative to the number n of matches at the step (start, stop in none, -(n+1)..n+1; step in '
@@ -90,8 +105,10 @@ META = dict(
     technique='Lean 4 theorems (structural induction over the node tree / the path, list reasoning about enumerate-filter-'
               'slice-sort) + checked model/implementation correspondence + property oracle on the implementation '
               '(query vs evaluator over the implementation\'s own nested JSON)',
-    note='The model is the code after fixes F16a (replications filtered repetition by repetition) and F16b (factor before '
-         'members in descendant filtering). Negative int slices cannot come out of the parser (C15) and are modelled for '
+    note='The model is the code after fixes F16a (replications filtered repetition by repetition), F16b (factor before '
+         'members in descendant filtering) and F16c (query_compressed_data returns the empty result when no subset is selected; '
+         'prepared as notes/C16_fix_empty_selection_compressed.diff, on a tree without it the disagreement is reported as the '
+         'known finding F16c). Negative int slices cannot come out of the parser (C15) and are modelled for '
          'components only. The early return of filter_for_entities is modelled by its result. Value comparison model vs '
          'implementation uses the 2-ulp rule of C01; oracle comparisons on the implementation alone are exact.',
 )
